@@ -681,6 +681,13 @@ func (rn *runner) runCase(idx int, cs *caseSpec) int {
 	rn.v.Eval(1)
 	staleFires, fires, sweeps, concAdmitted := 0, 0, 0, -1
 	curMaxMB := cs.MaxMB // size cases: the configured maximum in force (changes with "setmax")
+	// the maximum in force when an entry was offered, and the order of the offers: what a sweep finds is bounded by
+	// the maximum in force when the LATEST of the entries it finds was stored (all the others were there already)
+	limitAt, seqAt, seqN := map[string]float32{}, map[string]int{}, 0
+	noteOffer := func(id string) {
+		seqN++
+		limitAt[id], seqAt[id] = curMaxMB, seqN
+	}
 	afterConc := false
 	usedKeys := map[int]bool{}
 	var tick atomic.Int64
@@ -728,6 +735,7 @@ func (rn *runner) runCase(idx int, cs *caseSpec) int {
 		}
 		sort.Ints(keys)
 		total, served, conc := 0, 0, 0
+		latestSeq, latestLimit := -1, curMaxMB
 		seen := map[string]bool{}
 		for _, k := range keys {
 			ht := doLookup(i, nil, k, false)
@@ -738,6 +746,9 @@ func (rn *runner) runCase(idx int, cs *caseSpec) int {
 				seen[id] = true
 				total += len(ht.Body)
 				served++
+				if sq, ok := seqAt[id]; ok && sq > latestSeq {
+					latestSeq, latestLimit = sq, limitAt[id]
+				}
 				if strings.Contains(id, "-c") {
 					conc++
 				}
@@ -757,7 +768,7 @@ func (rn *runner) runCase(idx int, cs *caseSpec) int {
 		}
 		var max float64
 		if cs.Kind == "size" {
-			max = float64(curMaxMB) * 1024 * 1024
+			max = float64(latestLimit) * 1024 * 1024
 		} else if cs.MaxRaw > 0 {
 			max = float64(cs.MaxRaw)
 		} else {
@@ -822,6 +833,7 @@ func (rn *runner) runCase(idx int, cs *caseSpec) int {
 			case "store":
 				k := keyOf(cs, o.Key)
 				usedKeys[o.Key] = true
+				noteOffer(o.ID)
 				sNs := clk.Now().UnixNano()
 				o.TNs = sNs - base.UnixNano()
 				r := h.addStore(o.Key, k, o, sNs, 0)
@@ -892,8 +904,8 @@ func (rn *runner) runCase(idx int, cs *caseSpec) int {
 				usedKeys[o.Key] = true
 				doLookup(i, o, o.Key, true)
 			case "setmax":
-				// everything stored before has expired (the generator places it right after an epoch change), so what a
-				// later sweep finds was stored under the new maximum
+				// (entries stored before the change may still be served: a sweep is bounded by the maximum in force when
+				// the latest entry it finds was stored)
 				curMaxMB = o.MaxMB
 				if ct, ok := tg.(*cacheT); ok {
 					ct.cfg.MaxCacheSizeMegabytes = o.MaxMB
@@ -916,6 +928,7 @@ func (rn *runner) runCase(idx int, cs *caseSpec) int {
 					key := o.Key + j
 					usedKeys[key] = true
 					so := &op{K: "store", Key: key, ID: fmt.Sprintf("%s-c%d", o.ID, j), Pad: o.Pad, TTLk: o.TTLk}
+					noteOffer(so.ID)
 					k := keyOf(cs, key)
 					h.addStore(key, k, so, sNs, 0)
 					wg.Add(1)
@@ -1429,6 +1442,22 @@ func genSize(r *sim.Rand, idx int) caseSpec {
 		lazy := r.Chance(1, 3)
 		tl.ops = append(tl.ops, op{K: "at", AtNs: tl.t, Prompt: !lazy})
 		tl.ops = append(tl.ops, op{K: "sweep"})
+		if lazy && key > 0 && r.Chance(1, 2) {
+			// keys of the expired epoch are stored again with large bodies while their old clean-up sleepers are still
+			// pending; then every due sleeper runs; then the cache is filled up to its maximum
+			n := r.Range(1, 3)
+			for j := 0; j < n; j++ {
+				tl.ops = append(tl.ops, op{K: "store", Key: r.Intn(key), ID: tl.id(), Pad: maxB/4 - 8 - r.Intn(100), TTLk: ttlk})
+			}
+			for j := 0; j < 48; j++ {
+				tl.ops = append(tl.ops, op{K: "fire", Sel: 0, DueOnly: true})
+			}
+			tl.ops = append(tl.ops, op{K: "sweep"})
+			for j := 0; j < 6; j++ {
+				store(maxB/4 - 8 - r.Intn(100))
+			}
+			tl.ops = append(tl.ops, op{K: "sweep"})
+		}
 		if lazy { // some of the expired entries' sleepers run late, in a chosen order, between later stores
 			for j := r.Intn(4); j > 0; j-- {
 				store(r.Intn(3000))
